@@ -365,7 +365,7 @@ class Doist(tyming.Tymist):
         else:
             deeds = deque()  # when doers is provided then don't use .deeds
 
-        for doer in doers:
+        for doer in list(doers):  # copy since a doer's enter may extend .doers
             try:
                 doer.done = False  # False at enter. False signals incomplete
             except AttributeError:  # when using bound method for generator function
@@ -1270,7 +1270,7 @@ class DoDoer(Doer):
         else:
             deeds = deque()
 
-        for doer in doers:
+        for doer in list(doers):  # copy since a doer's enter may extend .doers
             try:
                 doer.done = False  # False at enter. False signals incomplete
             except AttributeError:   # when using bound method for generator function
